@@ -482,13 +482,37 @@ func main() {
 		if bin == "" {
 			return ev.Coverage{"race_pass": "not run"}
 		}
-		cmd := exec.Command(bin, "--race-pass")
+		// bounded: if the free-running bodies hang (a deadlock the runtime cannot see) the pass is abandoned without a
+		// verdict - no wall-clock oracle - and the exploration below decides
+		ctx, cancel := context.WithTimeout(context.Background(), 3*time.Minute)
+		defer cancel()
+		cmd := exec.CommandContext(ctx, bin, "--race-pass")
 		cmd.Env = append(os.Environ(), "GORACE=halt_on_error=0")
 		out, err := cmd.CombinedOutput()
 		text := string(out)
+		if ctx.Err() != nil {
+			fmt.Println("race pass abandoned after 3 minutes (no verdict from it)")
+			return ev.Coverage{"race_pass": map[string]interface{}{"exhaustive": false, "note": "abandoned after 3 minutes without finishing; no verdict"}}
+		}
 		reports := strings.Count(text, "WARNING: DATA RACE")
 		if reports == 0 && (err != nil || !strings.Contains(text, "RACEPASS")) {
-			ev.Tool("race pass failed: %v\n%s", err, tail(text, 2000))
+			// the free-running bodies died: a panic or a runtime-detected deadlock inside the repository's code is a
+			// finding about the code (the exploration below looks for the same thing exhaustively); anything else is ours
+			frame := ""
+			if strings.Contains(text, "panic:") || strings.Contains(text, "fatal error:") {
+				for _, l := range strings.Split(text, "\n") {
+					l = strings.TrimSpace(l)
+					if strings.HasPrefix(l, "/repo/") && !strings.Contains(l, "verif_hooks") {
+						frame = strings.TrimPrefix(strings.Fields(l)[0], "/repo/")
+						break
+					}
+				}
+			}
+			if frame == "" {
+				ev.Tool("race pass failed: %v\n%s", err, tail(text, 2000))
+			}
+			run.Violation("free-running-pass-died:"+frame, "the free-running pass over the scenario bodies died:\n"+head(text, 1500), map[string]interface{}{"output": head(text, 3000)})
+			return ev.Coverage{"race_pass": "died at " + frame}
 		}
 		// one finding per distinct pair of access sites inside /repo
 		seen := map[string]bool{}
@@ -520,6 +544,13 @@ func main() {
 			"ids a..c on colliding grid vectors, M in {1,2}; timestamps for linearizability are scheduler step numbers",
 			"Len read mid-flight is not constrained; the count is checked at quiescence",
 		})
+}
+
+func head(s string, n int) string {
+	if len(s) > n {
+		return s[:n]
+	}
+	return s
 }
 
 func tail(s string, n int) string {
